@@ -95,6 +95,12 @@ def _has_key_a(d):
     return "a" in d
 
 
+def _plus_1s(t):
+    import datetime
+
+    return t + datetime.timedelta(seconds=1)
+
+
 FN = {
     "is_even": _is_even,
     "is_pos": _is_pos,
@@ -113,6 +119,7 @@ FN = {
     "len": _len,
     "ident": _ident,
     "has_key_a": _has_key_a,
+    "plus_1s": _plus_1s,
 }
 
 OPS = {
